@@ -78,7 +78,7 @@ CHUNK = 1
 SHRINK_RUNS = 25
 SHRINK_S = 420.0
 BOOT_TIMEOUT = 420.0
-REF_FORMAT = 5     # bump when the canonical record of a reference run changes
+REF_FORMAT = 6     # bump when the canonical record of a reference run changes
 DET_SAMPLE = {"quick": 6, "thorough": 40}   # a scenario is several interpreters
 SECOND_POOL_WORKERS = 6
 
@@ -142,7 +142,12 @@ def generate(rng: random.Random, batch: dict) -> dict:
     setups = _gen_setups(rng, dom)
     pool = jobs.instances_for(dom)
     if dom == "instgen":
-        instances = rng.sample(pool, rng.choice([1, 2]))
+        if rng.random() < 0.4:
+            # both slack variants of one template, as the bundled experiment
+            t = rng.choice(["beng01", "cl01_020_01"])
+            instances = [f"instgen:{t}:0.25", f"instgen:{t}:0.125"]
+        else:
+            instances = rng.sample(pool, rng.choice([1, 2]))
     else:
         instances = rng.sample(pool, 1 if heavy else rng.choice([1, 1, 2]))
     if dom == "dcs":
@@ -180,8 +185,12 @@ def generate(rng: random.Random, batch: dict) -> dict:
                 clock = {"mode": "random", "tick": rng.choice(
                     [5000, 50_000_000]), "seed": rng.getrandbits(30)}
             elif r < 0.5:
-                clock["jumps"] = {str(rng.randint(1, 40)):
-                                  rng.choice([1, 5]) * 3_600_000_000_000}
+                # a stalled node: the clock jumps forward by hours (several
+                # times in long boots); time budgets on this clock expire
+                clock["jumps"] = {
+                    str(rng.randint(1, 40 if not heavy else 900)):
+                    rng.choice([1, 5]) * 3_600_000_000_000
+                    for _ in range(1 if not heavy else 6)}
         actions = []
         if faults and not heavy and not claimed and rng.random() < 0.3:
             actions.append({"a": "peer_claims", "frac": rng.choice(
@@ -263,9 +272,12 @@ def directed(tier: str) -> list:
                           "pre_warmup": False}]}]})
     docs.append({"domain": "instgen", "setups": ["instgen:cmaes"],
                  "instances": ["instgen:beng01:0.25",
-                               "instgen:cl01_020_01:0.125"],
+                               "instgen:beng01:0.125"],
                  "budget": 12, "boots": [
-        {"hashseed": "31", "clock": {"mode": "fixed", "tick": 1000},
+        {"hashseed": "31", "clock": {"mode": "fixed", "tick": 1000,
+                                     "jumps": {"60": 3_600_000_000_000,
+                                               "200": 3_600_000_000_000,
+                                               "450": 18_000_000_000_000}},
          "shuffle_seed": 6, "crash": None,
          "actions": [{"a": "run", "n_runs": [4], "warmup": False,
                       "pre_warmup": False}]}]})
